@@ -1,6 +1,6 @@
 (* Sync.v — replicated-state model of room synchronisation (C03, C11).  No proofs here.
 
-   Mirrors, for ONE room and ONE entity of node rows (references are not modelled):
+   Mirrors, for ONE room and ONE entity of node rows with ONE reference field (label):
      local create / update      <- MutationQuery::execute + Node::write        (mutation_query.rs, node.rs)
      local delete               <- DeletionQuery::build / delete + NodeDeletionEntry::build
                                    (deletion.rs, authorisation_service.rs::validate_deletion)
@@ -16,6 +16,12 @@
                                    newer than a stored deletion record of the row are dropped (fix
                                    ca69f52), then last writer wins on (mdate, signature) against _node;
                                    Node::filtered_by_room + NodeToInsert::write (update in place / insert)
+     references                <- add: MutationQuery (Edge + re-dated, re-signed source row); remove:
+                                   DeletionQuery (Edge::delete + EdgeDeletionEntry + re-dated source row, also when
+                                   the reference does not exist); local row deletion: Edge::delete_src/delete_dest;
+                                   pull: EdgeDeletionEntry::get_entries / delete_all (exact creation date) first,
+                                   then Query::Edges for the fetched rows: Edge::filtered_by_room (cdate >= the
+                                   receiver's old version of the row), Edge::write (INSERT OR REPLACE)
    WHICH days a pull exchanges is decided by the daily-log comparison of synchronise_room_data /
    synchronise_history / synchronise_last_day; that comparison (hashes of _daily_log, history-hash
    shortcut) is the business of C09 and is NOT modelled here: the list of days is an argument of
